@@ -49,9 +49,15 @@ def _service_entry_points(ctx, program):
     for huid in SERVICE_HANDLERS:
         h = program.func(huid)
         starts = [n for n in body_walk(h) if isinstance(n, ast.Call) and call_name(n) == "Function.create_task" and n.args]
-        if len(starts) != 1 or not isinstance(starts[0].args[0], ast.Call):
-            raise AnalysisError(f"{huid}: expected one Function.create_task(<coroutine call>) - found {[short(s) for s in starts]}")
+        if len(starts) != 1:
+            raise AnalysisError(f"{huid}: expected one Function.create_task(<coroutine>) - found {[short(s) for s in starts]}")
         coro = starts[0].args[0]
+        if isinstance(coro, ast.Name):
+            # the coroutine was bound to a local first
+            defs = [m.value for m in body_walk(h) if isinstance(m, ast.Assign) and len(m.targets) == 1 and isinstance(m.targets[0], ast.Name) and m.targets[0].id == coro.id]
+            coro = defs[-1] if defs else coro
+        if not isinstance(coro, ast.Call):
+            raise AnalysisError(f"{huid}: the coroutine handed to Function.create_task could not be resolved (`{short(starts[0])}`)")
         nested = {s.name: s for s in ast.walk(h) if isinstance(s, (ast.FunctionDef, ast.AsyncFunctionDef)) and s is not h}
         cname = call_name(coro)
         if cname in nested:
